@@ -245,7 +245,10 @@ Definition bp_resp (mx : nat) (s : st) (b : nat) (addw : bool) : st :=
         | VFatal => ((if mx =? 0 then with_ab x0 true else x0), s)
         | VRetr =>
             if mx =? 0 then (with_ab x0 true, s)
-            else (with_buf (with_rf x0 true) [], set_rq s (rq s ++ bounce mx (l ++ buf x0)))
+            else match l with
+                 | [] => (x0, s)      (* the partition is not in the request: its block verdict does not exist *)
+                 | _ => (with_buf (with_rf x0 true) [], set_rq s (rq s ++ bounce mx (l ++ buf x0)))
+                 end
         | VConn =>
             (with_buf (with_cl (if mx =? 0 then with_ab x0 true else x0) true) [],
              set_rq s (rq s ++ bounce mx (l ++ buf x0)))
